@@ -40,6 +40,9 @@ func InstallC16Hook() {
 	extraHookOnce.Do(func() {
 		verifbridge.SetWriteHook(func(w io.WriterAt, p []byte, off int64) (int, error, bool) {
 			if t, ok := traces.Load(w); ok {
+				if r, ok := lenRecorders.Load(w); ok {
+					r.(*LenRecorder).add(len(p))
+				}
 				return t.(*Trace).onWrite(p, off)
 			}
 			if f, ok := w.(*os.File); ok {
@@ -57,6 +60,40 @@ func InstallC16Hook() {
 			return 0, nil, false
 		})
 	})
+}
+
+// LenRecorder records the REQUESTED length of every seam write to a traced file, in the order
+// issued (index = Trace's hooked write index). Trace.Log cannot serve for that: a faulted write
+// of which no byte reached the file has no record there, and a short one is recorded with the
+// length that was written.
+type LenRecorder struct {
+	mu   sync.Mutex
+	lens []int
+}
+
+var lenRecorders sync.Map // io.WriterAt(*os.File) -> *LenRecorder
+
+// NewLenRecorder starts recording for f (which must be traced with NewTrace to be seen).
+func NewLenRecorder(f *os.File) *LenRecorder {
+	InstallC16Hook()
+	r := &LenRecorder{}
+	lenRecorders.Store(io.WriterAt(f), r)
+	return r
+}
+
+func (r *LenRecorder) Stop(f *os.File) { lenRecorders.Delete(io.WriterAt(f)) }
+
+func (r *LenRecorder) add(n int) {
+	r.mu.Lock()
+	r.lens = append(r.lens, n)
+	r.mu.Unlock()
+}
+
+// Lens returns the requested lengths of the seam writes seen so far.
+func (r *LenRecorder) Lens() []int {
+	r.mu.Lock()
+	defer r.mu.Unlock()
+	return append([]int{}, r.lens...)
 }
 
 // NewPathInjector starts faulting the seam writes to files named path.
